@@ -125,6 +125,16 @@ PROPS["C10"] = {
     "assumptions": ["at most three -u/-U and two --strip-suffix occurrences are modelled"],
 }
 
+PROPS["C01"] = {
+    "level": "proof",
+    "text": "Column-invariant proof on the real Aligner.locate (lowered from _align.pyx on every run): memory safety of every array "
+            "access, result intervals inside read and adapter, placement rule of the flag set, minimum overlap, N-discounted "
+            "tolerance, and existence of an alignment of the reported cost, for all adapters, reads, error rates and flag sets.",
+    "note": "Trusted: double arithmetic as the uninterpreted monotone function budget(L); translate() byte tables (checked "
+            "exhaustively); constructor establishes the entry invariant.",
+    "assumptions": ["indel cost is 1 or 100000 (the two values the constructor can set)", "rate in [0, 1]"],
+}
+
 _PENDING = "check not built yet in this revision (see DESIGN.md section 7 for the build order)"
 NOT_APPLICABLE = {
     "C12": "quantifies over fault sequences, crash points and schedules and contains a liveness clause; malformed-input detection "
